@@ -717,6 +717,29 @@ fn arc_box(c: &P2, r: f64, a0: f64, sweep: f64) -> Verdict {
             ensure!((x - want).norm() <= 1e-9 * scale * (1.0 + a0.abs()) && (y - want).norm() <= 1e-9 * scale * (1.0 + a0.abs()), "C11/arc/point_at_agree", "at fraction {f}: point_at_fraction {:?}, point_at_length {:?}, expected {:?} (start {a0:e}, sweep {sweep:e})", x, y, want);
         }
     }
+    // (4) the same arc built from its start point (circle_point_angle) is the same arc: same start direction, sweep,
+    //     end points, interior points and cached box
+    {
+        let sp = c0 + Vector2::new(a0.cos(), a0.sin()) * r;
+        let arc2 = match guarded(|| Arc2::circle_point_angle(c0, r, sp, sweep)) {
+            Ok(a) => a,
+            Err(m) => return Verdict::fail("C11/circle_point_angle/panic", m),
+        };
+        let ptol = 1e-9 * scale * (1.0 + a0.abs());
+        ensure!(arc2.angle == sweep, "C11/circle_point_angle/sweep", "sweep {:e} stored for a requested sweep of {sweep:e}", arc2.angle);
+        ensure!((arc2.angle0.cos() - a0.cos()).abs() <= 1e-9 * (1.0 + a0.abs()) && (arc2.angle0.sin() - a0.sin()).abs() <= 1e-9 * (1.0 + a0.abs()), "C11/circle_point_angle/start_angle", "start angle {:e} is not the direction of the start point (angle {a0:e})", arc2.angle0);
+        ensure!((arc2.start() - sp).norm() <= ptol, "C11/circle_point_angle/start", "start() is {:e} from the given start point", (arc2.start() - sp).norm());
+        ensure!((arc2.end() - arc.end()).norm() <= ptol, "C11/circle_point_angle/end", "end() differs by {:e} from the arc built from angles (start {a0:e}, sweep {sweep:e})", (arc2.end() - arc.end()).norm());
+        ensure!((arc2.length() - arc.length()).abs() <= 1e-12 * r * (1.0 + sweep.abs()), "C11/circle_point_angle/length", "length {:e} vs {:e}", arc2.length(), arc.length());
+        for f in [0.25, 0.5, 0.9] {
+            ensure!((arc2.point_at_fraction(f) - arc.point_at_fraction(f)).norm() <= ptol, "C11/circle_point_angle/point_at_fraction", "point at fraction {f} differs from the arc built from angles (start {a0:e}, sweep {sweep:e})");
+        }
+        let b2 = *arc2.aabb();
+        let got2 = [b2.maxs.x, b2.mins.x, b2.maxs.y, b2.mins.y];
+        for k in 0..4 {
+            ensure!((exp[k] - got2[k]).abs() <= tol.max(ptol), "C11/circle_point_angle/aabb", "{} of the box is {:e} but the arc's extreme is {:e} (centre {:?}, r={r:e}, start point at angle {a0:e}, sweep {sweep:e})", names[k], got2[k], exp[k], c0);
+        }
+    }
     if c0.coords.norm() > 1e-6 {
         cx.nontrivial();
     }
